@@ -27,12 +27,13 @@ VARIABLES
   gen,        \* [T -> generation of outputs] (completed scripts)
   builtFrom,  \* [T -> version vector the last completed script saw, <<-1>> if none]
   sees,       \* [T -> version vector the running script saw]
-  signalled, rootErr, waited
+  signalled, rootErr, waited,
+  begunOK     \* [T -> BOOLEAN] the dependencies were ready when the current run of t was decided
 
 mon == <<g, word, ready, failed, nStart, nSkip, inst, shells, lastRes, ver, gen, builtFrom, sees,
-         signalled, rootErr, waited>>
+         signalled, rootErr, waited, begunOK>>
 vars == <<l, g, word, ready, failed, nStart, nSkip, inst, shells, lastRes, ver, gen, builtFrom, sees,
-          signalled, rootErr, waited>>
+          signalled, rootErr, waited, begunOK>>
 
 T == 1..g.n
 EK == {"b", "s"}
@@ -98,6 +99,7 @@ InitMon(c) ==
                                     THEN <<0>> \o [i \in 1..Len(c.inh[t]) |-> 0] ELSE <<-1>>]
   /\ sees = [t \in 1..c.n |-> <<-1>>]
   /\ signalled = FALSE /\ rootErr = 0 /\ waited = FALSE
+  /\ begunOK = [t \in 1..c.n |-> TRUE]
 
 Init == l = 1 /\ TLCSet(1, 0) /\ InitMon(Rec[1].cfg) /\ Rec[1].e = "cfg"
 
@@ -117,34 +119,40 @@ Step(e) ==
                              THEN <<0>> \o [i \in 1..Len(e.cfg.inh[t]) |-> 0] ELSE <<-1>>]
          /\ sees' = [t \in 1..e.cfg.n |-> <<-1>>]
          /\ signalled' = FALSE /\ rootErr' = 0 /\ waited' = FALSE
+         /\ begunOK' = [t \in 1..e.cfg.n |-> TRUE]
     [] e.e = "recv" ->
          /\ word' = IF e.ty \in {"ok", "inv"} THEN [word EXCEPT ![e.t][e.from][e.k] = e.ty] ELSE word
-         /\ Keep(<<g, ready, failed, nStart, nSkip, inst, shells, lastRes, ver, gen, builtFrom, sees, signalled, rootErr, waited>>)
-    [] e.e = "start" ->
+         /\ Keep(<<g, ready, failed, nStart, nSkip, inst, shells, lastRes, ver, gen, builtFrom, sees, signalled, rootErr, waited, begunOK>>)
+    [] e.e = "begin" ->     \* the actor decided to run t (loop-top test passed)
          /\ Check("C01", <<"start-before-deps-ready", e.t>>, StartOK(e.t))
+         /\ begunOK' = [begunOK EXCEPT ![e.t] = StartOK(e.t)]
+         /\ Keep(<<g, word, ready, failed, nStart, nSkip, inst, shells, lastRes, ver, gen, builtFrom, sees, signalled, rootErr, waited>>)
+    [] e.e = "start" ->
+         \* F10: a dependency's out-of-date notice arriving between the decision and the spawn is a known finding
+         /\ Check("C01", <<IF begunOK[e.t] THEN "invalidated-between-decision-and-spawn" ELSE "start-before-deps-ready", e.t>>, StartOK(e.t))
          /\ Check("C08", <<"executed-twice-or-outside-closure", e.t>>, OnceOK(e.t))
          /\ Check("C08", <<"two-build-shells", e.t>>, shells[e.t] = 0)
          /\ nStart' = [nStart EXCEPT ![e.t] = @ + 1]
          /\ shells' = [shells EXCEPT ![e.t] = @ + 1]
          /\ sees' = [sees EXCEPT ![e.t] = EffIn(e.t)]
          /\ lastRes' = [lastRes EXCEPT ![e.t] = "started"]
-         /\ Keep(<<g, word, ready, failed, nSkip, inst, ver, gen, builtFrom, signalled, rootErr, waited>>)
+         /\ Keep(<<g, word, ready, failed, nSkip, inst, ver, gen, builtFrom, signalled, rootErr, waited, begunOK>>)
     [] e.e = "skip" ->
          /\ Check("C08", <<"executed-twice-or-outside-closure", e.t>>, OnceOK(e.t))
          /\ Check(IF g.watch THEN "C06" ELSE "C02", <<"stale-skip", e.t>>, builtFrom[e.t] = EffIn(e.t))
          /\ nSkip' = [nSkip EXCEPT ![e.t] = @ + 1]
-         /\ Keep(<<g, word, ready, failed, nStart, inst, shells, lastRes, ver, gen, builtFrom, sees, signalled, rootErr, waited>>)
+         /\ Keep(<<g, word, ready, failed, nStart, inst, shells, lastRes, ver, gen, builtFrom, sees, signalled, rootErr, waited, begunOK>>)
     [] e.e = "finish" ->    \* the script ended: ok / fail / cancelled (shell reaped)
          /\ shells' = [shells EXCEPT ![e.t] = IF @ > 0 THEN @ - 1 ELSE 0]
          /\ gen' = IF e.outcome = "ok" THEN [gen EXCEPT ![e.t] = @ + 1] ELSE gen
          /\ builtFrom' = IF e.outcome = "ok" THEN [builtFrom EXCEPT ![e.t] = sees[e.t]] ELSE builtFrom
-         /\ Keep(<<g, word, ready, failed, nStart, nSkip, inst, lastRes, ver, sees, signalled, rootErr, waited>>)
+         /\ Keep(<<g, word, ready, failed, nStart, nSkip, inst, lastRes, ver, sees, signalled, rootErr, waited, begunOK>>)
     [] e.e = "result" ->    \* the actor learnt the outcome of its build
          /\ lastRes' = [lastRes EXCEPT ![e.t] = e.res]
          /\ ready' = IF e.res \in {"completed", "skipped"} THEN [ready EXCEPT ![e.t] = TRUE] ELSE ready
          /\ failed' = IF e.res = "failed" THEN [failed EXCEPT ![e.t] = TRUE]
                       ELSE IF e.res \in {"completed", "skipped"} THEN [failed EXCEPT ![e.t] = FALSE] ELSE failed
-         /\ Keep(<<g, word, nStart, nSkip, inst, shells, ver, gen, builtFrom, sees, signalled, rootErr, waited>>)
+         /\ Keep(<<g, word, nStart, nSkip, inst, shells, ver, gen, builtFrom, sees, signalled, rootErr, waited, begunOK>>)
     [] e.e = "svcstart" ->
          /\ Check("C01", <<"service-start-before-deps-ready", e.t>>, StartOK(e.t))
          /\ Check("C08", <<"service-outside-closure-or-twice", e.t>>, e.t \in Closure /\ (~g.watch => nStart[e.t] = 0))
@@ -153,14 +161,14 @@ Step(e) ==
          /\ nStart' = [nStart EXCEPT ![e.t] = @ + 1]
          /\ ready' = [ready EXCEPT ![e.t] = TRUE]
          /\ failed' = [failed EXCEPT ![e.t] = FALSE]
-         /\ Keep(<<g, word, nSkip, shells, lastRes, ver, gen, builtFrom, sees, signalled, rootErr, waited>>)
+         /\ Keep(<<g, word, nSkip, shells, lastRes, ver, gen, builtFrom, sees, signalled, rootErr, waited, begunOK>>)
     [] e.e = "svcstop" ->
          /\ inst' = [inst EXCEPT ![e.t] = @ \ {e.pid}]
-         /\ Keep(<<g, word, ready, failed, nStart, nSkip, shells, lastRes, ver, gen, builtFrom, sees, signalled, rootErr, waited>>)
+         /\ Keep(<<g, word, ready, failed, nStart, nSkip, shells, lastRes, ver, gen, builtFrom, sees, signalled, rootErr, waited, begunOK>>)
     [] e.e = "svcfail" ->
          /\ Check("C01", <<"service-start-before-deps-ready", e.t>>, StartOK(e.t))
          /\ failed' = [failed EXCEPT ![e.t] = TRUE]
-         /\ Keep(<<g, word, ready, nStart, nSkip, inst, shells, lastRes, ver, gen, builtFrom, sees, signalled, rootErr, waited>>)
+         /\ Keep(<<g, word, ready, nStart, nSkip, inst, shells, lastRes, ver, gen, builtFrom, sees, signalled, rootErr, waited, begunOK>>)
     [] e.e = "send" ->
          /\ Check("C01", <<"aggregate-forwards-early", e.t, e.k>>,
                   (g.kind[e.t] = "a" /\ e.ty = "ok") => AggOK(e.t, e.k))
@@ -172,18 +180,18 @@ Step(e) ==
     [] e.e = "rooterr" ->
          /\ Check("C07", <<"error-names-target-that-did-not-fail", e.t>>, failed[e.t])
          /\ rootErr' = e.t
-         /\ Keep(<<g, word, ready, failed, nStart, nSkip, inst, shells, lastRes, ver, gen, builtFrom, sees, signalled, waited>>)
+         /\ Keep(<<g, word, ready, failed, nStart, nSkip, inst, shells, lastRes, ver, gen, builtFrom, sees, signalled, waited, begunOK>>)
     [] e.e = "edit" ->
          /\ ver' = [ver EXCEPT ![e.t] = e.ver]
-         /\ Keep(<<g, word, ready, failed, nStart, nSkip, inst, shells, lastRes, gen, builtFrom, sees, signalled, rootErr, waited>>)
+         /\ Keep(<<g, word, ready, failed, nStart, nSkip, inst, shells, lastRes, gen, builtFrom, sees, signalled, rootErr, waited, begunOK>>)
     [] e.e = "signal" ->
          /\ signalled' = TRUE
-         /\ Keep(<<g, word, ready, failed, nStart, nSkip, inst, shells, lastRes, ver, gen, builtFrom, sees, rootErr, waited>>)
+         /\ Keep(<<g, word, ready, failed, nStart, nSkip, inst, shells, lastRes, ver, gen, builtFrom, sees, rootErr, waited, begunOK>>)
     [] e.e = "waitsig" ->
          /\ Check("C11", <<"kept-alive-without-requested-service">>, \E r \in Roots : ServiceBehind(r))
          /\ Check("C04", <<"waiting-for-signal-before-everything-ran">>, CompleteOK)
          /\ waited' = TRUE
-         /\ Keep(<<g, word, ready, failed, nStart, nSkip, inst, shells, lastRes, ver, gen, builtFrom, sees, signalled, rootErr>>)
+         /\ Keep(<<g, word, ready, failed, nStart, nSkip, inst, shells, lastRes, ver, gen, builtFrom, sees, signalled, rootErr, begunOK>>)
     [] e.e = "exit" ->
          /\ Check("C10", <<"process-alive-at-exit">>,
                   \A t \in T : inst[t] = {} /\ shells[t] = 0)
